@@ -18,6 +18,7 @@ import (
 	mocker "github.com/tencent/goom"
 	"github.com/tencent/goom/arg"
 	"github.com/tencent/goom/zverif/corpus"
+	"github.com/tencent/goom/zverif/reloc"
 	"github.com/tencent/goom/zverif/vkit"
 	"pgregory.net/rapid"
 )
@@ -369,6 +370,42 @@ func play(sc *scen) (tr []string) {
 			b.Struct(argv).Method(m.Name).Apply(m.MkRepl(rec))
 			call(fmt.Sprintf("%s.%s/closure#%d", t.Name, m.Name, i), func() []reflect.Value { return m.Call(0, valuesFor(ins(m.FuncType, 1), 5)) })
 		}
+	case "origin":
+		// a mock with an origin placeholder whose callback forwards to the placeholder: what is written into the placeholder and
+		// what the forwarded call yields must not depend on the logging mode. The trampoline is validated statically before it is
+		// executed (an unfaithful one is reported in the transcript and not run).
+		zoo := corpus.Zoo
+		fn := zoo[sc.K%len(zoo)]
+		corpus.ZG, corpus.ZS, corpus.ZU = 0, "zoo", 3 // zoo bodies read and write these globals: every play starts from the same state
+		e := reflect.ValueOf(fn.Fn).Pointer()
+		f, ok1 := textImg.FuncAt(e)
+		pf, ok2 := textImg.FuncAt(reflect.ValueOf(fn.Origin).Elem().Pointer())
+		if !ok1 || !ok2 {
+			say("origin: %s not in the image", fn.Name)
+			break
+		}
+		rec := &corpus.Rec{}
+		rec.Hook = func(a []reflect.Value) { rec.Res = fn.CallOrigin(a) }
+		if pv := guard(func() { b.Func(fn.Fn).Origin(fn.Origin).Apply(fn.MkRepl(rec)) }); pv != nil {
+			say("origin: %s refused", fn.Name)
+			break
+		}
+		off := int(e - textImg.Addr)
+		orig := textImg.Pristine[off : off+int(uintptr(f.End)-e)]
+		tramp := vkit.Bytes(uintptr(pf.Entry), int(pf.End-pf.Entry))
+		if _, _, verr := reloc.ValidateTrampoline(orig, uint64(e), tramp, uint64(pf.Entry), 13); verr != nil {
+			say("origin: %s: trampoline in the placeholder is not a faithful relocation: %v", fn.Name, verr)
+			break
+		}
+		for i := 0; i < 2; i++ {
+			args := valuesFor(ins(fn.Type, 0), code(sc, i)%50)
+			call("origin/"+fn.Name, func() []reflect.Value {
+				var out []reflect.Value
+				vkit.WithHeadroom(func() { out = fn.Call(corpus.FormDirect, args) })
+				return out
+			})
+			say("  callback ran %d times", rec.Calls)
+		}
 	case "text":
 		// long, multi-byte, invalid and control-character text as arguments and results (whatever the log does to render or
 		// shorten it stays in the log)
@@ -526,11 +563,14 @@ func TestVerifC19Child(t *testing.T) {
 	fmt.Fprintf(realStdout, "\nC19TRANSCRIPT %s\n", b)
 }
 
+var textImg *vkit.TextImage
+
 func TestVerifC19(t *testing.T) {
 	quiet()
+	textImg = vkit.SnapshotText()
 	p := &vkit.Prop{ID: "C19", Unit: "scenarios", Journal: true, New: func() interface{} { return &scen{} },
 		Gen: func(rt *rapid.T) interface{} {
-			sc := &scen{Kind: rapid.SampledFrom([]string{"fn", "fn", "variadic", "method", "iface", "panic", "hostile", "hostile", "hostile2", "hostile2", "reapply", "reapply", "text", "text"}).Draw(rt, "kind"),
+			sc := &scen{Kind: rapid.SampledFrom([]string{"fn", "fn", "variadic", "method", "iface", "panic", "hostile", "hostile", "hostile2", "hostile2", "reapply", "reapply", "text", "text", "origin", "origin"}).Draw(rt, "kind"),
 				K: rapid.IntRange(0, 119).Draw(rt, "k")}
 			n := rapid.IntRange(1, 6).Draw(rt, "ncodes")
 			for i := 0; i < n; i++ {
